@@ -154,7 +154,7 @@ def run_check(pid, P, tier, seed, work, t0, no_evidence):
             json.dump(dict(property=pid, failed_obligations=unlisted, witness=witness,
                            replay_cmd="./check %s --replay %s" % (pid, replay_path),
                            repo=REPO, tier=tier), f, indent=1)
-    elif (tier == "thorough" or undecided) and P.get("replay_module"):
+    elif (tier == "thorough" or undecided or P.get("always_search")) and P.get("replay_module"):
         # undecided: a failing input on the real code still decides the property (sound: it is a real execution);
         # thorough: run the witness search anyway, as extra exploration of the real code
         thorough_search = replay_run.search(pid, P, [], REPO, VERIF, seed, tier, kres)
